@@ -51,6 +51,7 @@ package lnwire
 //@
 //@ func EncodeFailure
 //@   props C10
+//@   site return nonnil nth 1: assert len(failureMessage) > 256
 //@   site make: assert 0 <= arg(len) && arg(len) + len(failureMessage) == 256
 //@   site call WriteUint16 nth 0: assert arg(1) == len(failureMessage)
 //@   site call WriteBytes nth 0: assert arg(1) == failureMessage
@@ -87,6 +88,7 @@ package lnwire
 //@ func ReadElement
 //@   props C10
 //@   loop * havoc
+//@   bounds-safe
 //@   site make: assert 0 <= arg(len) && arg(len) <= 65535
 //@
 //@ func ReadMessage
@@ -119,3 +121,21 @@ package lnwire
 //@   site return nil as t4: assert descriptor[0] == 4 ==> result0 == 38
 //@   site return nil as t5: assert descriptor[0] == 5 ==> result0 == 4 + hostnameLen[0]
 //@   site return nil as t6: assert descriptor[0] > 5 ==> result0 == addrsLen
+//@
+//@ // ---- untrusted extension data is always decoded with the peer-to-peer record size cap
+//@ func (e *ExtraOpaqueData) ValidateTLV
+//@   props C10
+//@   site call DecodeWithParsedTypesP2P: assert arg(0) == retn(NewStream, 0) && retn(NewStream, 1) == nil
+//@   site call NewReader: assert e != nil && len(*e) > 0
+//@   ensures result == nil && e != nil && len(*e) > 0 ==> retn(DecodeWithParsedTypesP2P, 1) == nil
+//@
+//@ func DecodeRecordsP2P
+//@   props C10
+//@   site call DecodeWithParsedTypesP2P: assert arg(0) == retn(NewStream, 0) && retn(NewStream, 1) == nil && arg(1) == r
+//@   site call NewStream: assert arg(0) == records
+//@
+//@ func (e *ExtraOpaqueData) ExtractRecords
+//@   props C10
+//@   site call DecodeRecordsP2P: assert arg(0) == ret(NewReader) && arg(1) == ret(ProduceRecordsSorted)
+//@   site call NewReader: assert arg(0) == *e
+//@   site call ProduceRecordsSorted: assert arg(0) == recordProducers
